@@ -98,6 +98,7 @@ func cmdVerify(args []string) {
 	verbose := fs.Bool("v", false, "")
 	workers := fs.Int("workers", 3, "parallel solver processes")
 	full := fs.Bool("full", false, "use the full solver portfolio (default: light hedge)")
+	doReplay := fs.Bool("replay", false, "try to replay failed obligations on the real code")
 	fs.Parse(args)
 	t0 := time.Now()
 	P, err := LoadProg(*repo, strings.Split(*pk, ","), "/verif")
@@ -161,6 +162,12 @@ func cmdVerify(args []string) {
 		if o.Verdict != "unsat" {
 			fail++
 			fmt.Printf("FAIL %-8s %s  [%s] %s\n", o.Verdict, o.Name, o.Solver, o.Descr)
+			if *doReplay {
+				os.MkdirAll("/tmp/govc-dev/evidence/replays", 0o755)
+				rp := writeReplay(P, "/tmp/govc-dev", "DEV", o)
+				data, _ := os.ReadFile(rp.path)
+				fmt.Printf("  replay confirmed=%v %s\n%s\n", rp.confirmed, rp.path, truncate(string(data), 3000))
+			}
 			if *dump != "" {
 				os.MkdirAll(*dump, 0o755)
 				os.WriteFile(filepath.Join(*dump, sanitize(o.Name)+".smt2"), []byte(o.smt(true)), 0o644)
